@@ -805,7 +805,8 @@ class _LastIndex(ast.NodeTransformer):
 def _cycle_events(f):
     """attr -> canonical list of what the function does to self.<attr>"""
     import copy
-    nf = inline_temps(f)
+    from ..normal import publish_locals
+    nf = inline_temps(publish_locals(inline_temps(f)))
     ev = {}
     canon = lambda e: unparse(_LastIndex().visit(copy.deepcopy(e)))
     for st in stmts_of(nf):
